@@ -468,7 +468,23 @@ def stage_compilers(ctx):
         ctx.count("denote:" + ("accepted" if h is not None else "rejected"))
 
     oneway = []
+    TYPING_NAMES = {"Optional", "List", "Dict", "Union", "Iterable", "AsyncIterable", "AsyncIterator"}
+
+    def ast_wf(t):
+        """shapes the plugin can produce: a union has at least one member (an empty one prints as nothing, and CPython then
+        reads `dict[str, ]` as `dict[str]` - a statement about Python's trailing comma, not about the compilers)"""
+        if t[0] == "union":
+            return bool(t[1]) and all(ast_wf(x) for x in t[1])
+        return all(ast_wf(x) for x in t[1:] if isinstance(x, tuple))
+
     for opt, t, real in texts:
+        if not ast_wf(t):
+            # text printed from an ill-formed AST: one-way only (what denote accepts, CPython must read the same way)
+            for txt in (real, '"' + real + '"', '"' + real.strip('"') + '"'):
+                if txt not in seen:
+                    seen.add(txt)
+                    oneway.append(txt)
+            continue
         add(real, "printer output")
         add('"' + real + '"', "KQuote site")
         add('"' + real.strip('"') + '"', "KQuoteStrip site")
@@ -478,7 +494,10 @@ def stage_compilers(ctx):
             i = rng.randrange(len(real))
             for mut in (real[:i] + real[i + 1:], real[:i] + rng.choice('"[],|') + real[i:]):
                 # (not a statement about Python keywords: a deletion can turn `int` into `in`)
-                if mut not in seen and not (set(re.findall(r"[A-Za-z_]+", mut)) & set(keyword.kwlist)):
+                # (nor about which names the typing module has: the denotation takes any dotted name for a class name,
+                #  CPython looks `typing.Async` up in the real module)
+                if mut not in seen and not (set(re.findall(r"[A-Za-z_]+", mut)) & set(keyword.kwlist)) \
+                        and set(re.findall(r"typing\.([A-Za-z_0-9]*)", mut)) <= TYPING_NAMES:
                     seen.add(mut)
                     oneway.append(mut)
     ctx.cov["evaluations"] += len(pairs)
